@@ -213,7 +213,7 @@ inductive FoldLM : Store → Value → List Value → Except SErr Value → Stor
 last element first -/
 inductive FoldRM : Store → Value → List Value → Except SErr Value → Store → Prop where
   | nil {σ σ' init} : ext σ σ' → FoldRM σ init [] (.ok init) σ'
-  | cons_err {σ σ₁ σ' init x xs er} : ext σ σ₁ → FoldRM σ₁ init xs (.error er) σ' →
+  | cons_err {σ σ₁ σ₂ σ' init x xs er} : ext σ σ₁ → FoldRM σ₁ init xs (.error er) σ₂ → ext σ₂ σ' →
       FoldRM σ init (x :: xs) (.error er) σ'
   | cons {σ σ₁ σ₂ σ₃ σ' init x xs acc r} : ext σ σ₁ → FoldRM σ₁ init xs (.ok acc) σ₂ → ext σ₂ σ₃ →
       app σ₃ [x, acc] r σ' → FoldRM σ init (x :: xs) r σ'
